@@ -108,6 +108,14 @@ pub fn distinct(h: u64) {
     });
 }
 
+pub fn distinct_str(x: &str) {
+    let mut h = 0xcbf2_9ce4_8422_2325u64;
+    for b in x.bytes() {
+        h = (h ^ b as u64).wrapping_mul(0x100_0000_01b3);
+    }
+    distinct(h);
+}
+
 pub fn sample(v: Value, cap: usize) {
     with(|r| {
         if r.samples.len() < cap {
@@ -137,7 +145,7 @@ pub fn collect_violations(witness: &Value) -> usize {
     if n > 0 {
         with(|r| {
             for v in vs {
-                if r.violations.len() < 40 {
+                if r.violations.len() < 300 {
                     r.violations.push(json!({"prop": v.prop, "kind": v.kind, "detail": v.detail, "witness": witness}));
                 }
             }
@@ -148,7 +156,7 @@ pub fn collect_violations(witness: &Value) -> usize {
 
 pub fn violation(prop: &str, kind: &str, detail: String, witness: &Value) {
     with(|r| {
-        if r.violations.len() < 40 {
+        if r.violations.len() < 300 {
             r.violations.push(json!({"prop": prop, "kind": kind, "detail": detail, "witness": witness}));
         }
     });
